@@ -900,7 +900,10 @@ impl ProtocolState {
                         }
                     }
                     MqttPacket::Publish(publish) => {
-                        if publish.duplicate {
+                        if operation.packet_id.is_some_and(|packet_id| self.pending_publish_operations.get(&packet_id) == Some(&id)) {
+                            // the publish has already been fully written on this connection (its pubrel was the
+                            // current operation): the pending publish table, processed by the caller, re-queues it
+                        } else if publish.duplicate {
                             self.resubmit_operation_queue.push_front(id);
                         } else if publish.qos == QualityOfService::ExactlyOnce && operation.qos2_pubrel.is_some() {
                             self.high_priority_operation_queue.push_front(id);
